@@ -1320,12 +1320,21 @@ Theorem C02_loads_multi_mixed :
     C02_multi_domain st parts a file -> ref_write_multi st parts a = Some file ->
     exists d t, LoaderExt.load_ext LoadsFilterProofs.decompress_ref LoadsFilterProofs.can_ref file = LOk d t /\
                 d_version d = a_version a /\
+                (* exactly the objects the file defines, each with the value it defines *)
                 (forall id, In (fst id) (part_xids parts) \/
                             match lookup (d_objects d) id, lookup (content a) id with
                             | Some o, Some o' => same_value o' o
                             | None, None => True
                             | _, _ => False
-                            end).
+                            end) /\
+                (* the trailer: the newest section's, without Prev; beside the bookkeeping keys and Size (the newest section's own
+                   count) it holds exactly the document's trailer entries, by value *)
+                (forall k, In k [bs "Type"; bs "W"; bs "Index"; bs "Length"; bs "Filter"; bs "DecodeParms"; bs "Size"] \/
+                           match dict_get (d_trailer d) k, dict_get (a_trailer a) k with
+                           | Some o, Some o' => same_value o' o
+                           | None, None => True
+                           | _, _ => False
+                           end).
 Proof. exact (LoadsMultiMixedFull.loads_multi_mixed_full LoadsFilterProofs.decompress_ref LoadsFilterProofs.can_ref). Qed.
 
 (* non-vacuity: part 1 = object 3, a superseded definition of object 7, a cross-reference STREAM (object 9, W [0 1 0] widened,
